@@ -164,6 +164,104 @@ theorem abnf_iff (s : List Nat) :
       simp only [Bool.and_eq_true, Bool.or_eq_true, decide_eq_true_eq, and_true, beq_iff_eq]
       omega
 
+/-- the language `Unicode::isValid` accepts, as a language: EXACTLY the concatenations of structurally complete sequences
+    (any lead byte 00..7F / C0..DF / E0..EF / F0..F7 followed by the announced number of bytes 80..BF) -/
+theorem wellFormed_iff_sequences (l : List Nat) :
+    Spec.wellFormed l = true ↔ ∃ seqs : List (List Nat), l = seqs.flatten ∧ ∀ s ∈ seqs, Spec.oneSeq s = true := by
+  constructor
+  · induction l using Spec.wellFormed.induct with
+    | case1 => intro _; exact ⟨[], rfl, by simp⟩
+    | case2 b rest ih =>
+      intro h
+      rw [Spec.wellFormed] at h
+      simp only [Bool.and_eq_true, decide_eq_true_eq] at h
+      obtain ⟨⟨⟨h0, hl⟩, hc⟩, hr⟩ := h
+      obtain ⟨seqs, e, hs⟩ := ih hr
+      refine ⟨(b :: rest.take (Spec.seqLen b - 1)) :: seqs, ?_, ?_⟩
+      · rw [List.flatten_cons, ← e, List.cons_append, List.take_append_drop]
+      · intro s hmem
+        rcases List.mem_cons.mp hmem with rfl | hm
+        · rw [oneSeq_unfold, h0, hc]
+          have hne : Spec.seqLen b ≠ 0 := by simpa using h0
+          have : (List.take (Spec.seqLen b - 1) rest).length + 1 = Spec.seqLen b := by
+            rw [List.length_take]; omega
+          rw [this]; simp
+        · exact hs s hm
+  · intro ⟨seqs, e, hs⟩
+    subst e
+    induction seqs with
+    | nil => exact wf_nil
+    | cons s rest ih =>
+      have h1 := hs s (List.mem_cons_self ..)
+      have ihr := ih (fun x hx => hs x (List.mem_cons_of_mem _ hx))
+      cases s with
+      | nil => simp [Spec.oneSeq] at h1
+      | cons b tl =>
+        rw [oneSeq_unfold] at h1
+        simp only [Bool.and_eq_true, beq_iff_eq] at h1
+        obtain ⟨⟨h0, hl⟩, hc⟩ := h1
+        rw [List.flatten_cons, List.cons_append, Spec.wellFormed]
+        have e1 : Spec.seqLen b - 1 = tl.length := by omega
+        simp only [Bool.and_eq_true, decide_eq_true_eq]
+        refine ⟨⟨⟨h0, by rw [List.length_append]; omega⟩, ?_⟩, ?_⟩
+        · rw [e1, List.take_left']; exact hc; rfl
+        · rw [e1, List.drop_left']; exact ihr; rfl
+
+/-- ... and for the real function on EVERY byte string -/
+theorem isValid_language (bs : List UInt8) :
+    isValid (bs.map UInt8.toNat) (bs.map UInt8.toNat).length = .ok true ↔
+      ∃ seqs : List (List Nat), bs.map UInt8.toNat = seqs.flatten ∧ ∀ s ∈ seqs, Spec.oneSeq s = true := by
+  have hb : ∀ b ∈ bs.map UInt8.toNat, b < 256 := by
+    intro b hb
+    obtain ⟨x, _, rfl⟩ := List.mem_map.mp hb
+    exact x.toNat_lt
+  have := isValidLoop_spec _ hb (bs.map UInt8.toNat).length 0 (bs.map UInt8.toNat).length (by omega) (by omega)
+  rw [List.drop_zero] at this
+  unfold isValid
+  rw [this, ← wellFormed_iff_sequences]
+  constructor
+  · intro h; injection h
+  · intro h; rw [h]
+
+/-- `Spec.rfc3629` is the concatenation closure of the RFC 3629 ABNF character -/
+theorem rfc3629_iff_sequences (l : List Nat) :
+    Spec.rfc3629 l = true ↔ ∃ seqs : List (List Nat), l = seqs.flatten ∧ ∀ s ∈ seqs, Spec.abnfSeq s = true := by
+  constructor
+  · induction l using Spec.rfc3629.induct with
+    | case1 => intro _; exact ⟨[], rfl, by simp⟩
+    | case2 b rest ih =>
+      intro h
+      rw [Spec.rfc3629] at h
+      simp only [Bool.and_eq_true, decide_eq_true_eq] at h
+      obtain ⟨⟨⟨h0, hl⟩, hc⟩, hr⟩ := h
+      obtain ⟨seqs, e, hs⟩ := ih hr
+      refine ⟨(b :: rest.take (Spec.seqLen b - 1)) :: seqs, ?_, ?_⟩
+      · rw [List.flatten_cons, ← e, List.cons_append, List.take_append_drop]
+      · intro s hmem
+        rcases List.mem_cons.mp hmem with rfl | hm
+        · exact hc
+        · exact hs s hm
+  · intro ⟨seqs, e, hs⟩
+    subst e
+    induction seqs with
+    | nil => rw [List.flatten_nil, Spec.rfc3629]
+    | cons s rest ih =>
+      have ha := hs s (List.mem_cons_self ..)
+      have h1 := ((abnf_iff s).mp ha).1
+      have ihr := ih (fun x hx => hs x (List.mem_cons_of_mem _ hx))
+      cases s with
+      | nil => simp [Spec.oneSeq] at h1
+      | cons b tl =>
+        rw [oneSeq_unfold] at h1
+        simp only [Bool.and_eq_true, beq_iff_eq] at h1
+        obtain ⟨⟨h0, hl⟩, hc⟩ := h1
+        rw [List.flatten_cons, List.cons_append, Spec.rfc3629]
+        have e1 : Spec.seqLen b - 1 = tl.length := by omega
+        simp only [Bool.and_eq_true, decide_eq_true_eq]
+        refine ⟨⟨⟨h0, by rw [List.length_append]; omega⟩, ?_⟩, ?_⟩
+        · rw [e1, List.take_left']; exact ha; rfl
+        · rw [e1, List.drop_left']; exact ihr; rfl
+
 /-- every RFC 3629 well-formed byte string is accepted by `Unicode::isValid` (the converse is false: see the examples) -/
 theorem rfc3629_accepted (bs : List UInt8) (h : Spec.rfc3629 (bs.map UInt8.toNat) = true) :
     isValid (bs.map UInt8.toNat) (bs.map UInt8.toNat).length = .ok true := by
